@@ -845,7 +845,7 @@ func (t *Term) write(sb *strings.Builder, named map[*Term]string, depth int) {
 	case OpWide:
 		sb.WriteString(wideLit(t.W, t.Big))
 	case OpVar:
-		sb.WriteString(smtName(t.Name))
+		sb.WriteString(smtName(fmt.Sprintf("%s@%d", t.Name, t.W)))
 	case OpExtract:
 		fmt.Fprintf(sb, "((_ extract %d %d) ", t.A, t.B)
 		t.Args[0].write(sb, named, depth+1)
